@@ -47,3 +47,10 @@ static_assert(!std::is_copy_constructible_v<frg::ticket_spinlock> && !std::is_co
 // already holds an object. constinit makes the compiler decide it (every byte of the object must be initialised by the
 // constexpr constructors of the box and of its aligned_storage).
 constinit frg::manual_box<wit::Elem> wit_global_box; // WITNESS holder: a namespace-scope manual_box is constant-initialised (no dynamic initialiser can reset an engaged box)
+
+// ---- variant storage (C17): as large as the largest alternative AND as strictly aligned as the strictest one -- which
+// need not be the same alternative (a 40-byte character array next to a 16-byte-aligned vector type)
+namespace wit { struct alignas(16) Strict16 { char c[16]; }; struct Big40 { char c[40]; }; struct Odd24 { long double x; char c[7]; }; }
+static_assert(sizeof(frg::aligned_union<wit::Big40, wit::Strict16>) >= sizeof(wit::Big40) && alignof(frg::aligned_union<wit::Big40, wit::Strict16>) >= alignof(wit::Strict16), "holder: the storage of a union of types is as large as its largest and as aligned as its strictest member, also when these are different members");
+static_assert(sizeof(frg::aligned_union<wit::Strict16, wit::Big40>) >= sizeof(wit::Big40) && alignof(frg::aligned_union<wit::Strict16, wit::Big40>) >= alignof(wit::Strict16), "holder: ... in either order of the members");
+static_assert(sizeof(frg::aligned_union<char, wit::Odd24, short>) >= sizeof(wit::Odd24) && alignof(frg::aligned_union<char, wit::Odd24, short>) >= alignof(wit::Odd24), "holder: ... and for three members with the widest in the middle");
